@@ -290,6 +290,129 @@ func casesLean(name string, rows [][3]string) string {
 	return sb.String()
 }
 
+
+// package-level variables (shared by every instance and every goroutine) and every statement that writes
+// one of them — an assignment, ++/--, an element or field assignment rooted at it, or a call of a mutating
+// method (Set*, Assign, Clear, Add*, Remove*, Push, Pop, Write*) on it — anywhere outside its declaration
+func sharedState() []site {
+	var out []site
+	globals := map[string]bool{} // name -> declared at package level somewhere
+	type pf struct {
+		rel string
+		f   *ast.File
+	}
+	var files []pf
+	for _, rel := range nonTestGoFiles() {
+		f := parseRepoFile(rel)
+		files = append(files, pf{rel, f})
+		for _, d := range f.Decls {
+			gd, ok := d.(*ast.GenDecl)
+			if !ok || gd.Tok != token.VAR {
+				continue
+			}
+			for _, sp := range gd.Specs {
+				vs := sp.(*ast.ValueSpec)
+				for _, n := range vs.Names {
+					globals[n.Name] = true
+					out = append(out, site{rel, "(package)", "global-var", n.Name})
+				}
+			}
+		}
+	}
+	root := func(e ast.Expr) string {
+		for {
+			switch x := e.(type) {
+			case *ast.Ident:
+				return x.Name
+			case *ast.SelectorExpr:
+				// pkg.Global or global.field: try the selector name first (pkg.Global), then descend
+				if id, ok := x.X.(*ast.Ident); ok && globals[x.Sel.Name] && !globals[id.Name] {
+					return x.Sel.Name
+				}
+				e = x.X
+			case *ast.IndexExpr:
+				e = x.X
+			case *ast.StarExpr:
+				e = x.X
+			case *ast.ParenExpr:
+				e = x.X
+			default:
+				return ""
+			}
+		}
+	}
+	mut := func(name string) bool {
+		for _, p := range []string{"Set", "Assign", "Clear", "Add", "Remove", "Push", "Pop", "Write"} {
+			if strings.HasPrefix(name, p) {
+				return true
+			}
+		}
+		return false
+	}
+	for _, x := range files {
+		for _, d := range x.f.Decls {
+			fd, ok := d.(*ast.FuncDecl)
+			if !ok || fd.Body == nil {
+				continue
+			}
+			// locals and parameters shadow globals of the same name
+			local := map[string]bool{}
+			if fd.Recv != nil {
+				for _, fl := range fd.Recv.List {
+					for _, n := range fl.Names {
+						local[n.Name] = true
+					}
+				}
+			}
+			for _, fl := range fd.Type.Params.List {
+				for _, n := range fl.Names {
+					local[n.Name] = true
+				}
+			}
+			ast.Inspect(fd.Body, func(n ast.Node) bool {
+				switch st := n.(type) {
+				case *ast.AssignStmt:
+					if st.Tok == token.DEFINE {
+						for _, l := range st.Lhs {
+							if id, ok := l.(*ast.Ident); ok {
+								local[id.Name] = true
+							}
+						}
+						return true
+					}
+					for _, l := range st.Lhs {
+						if r := root(l); r != "" && globals[r] && !local[r] {
+							out = append(out, site{x.rel, funcName(fd), "global-write", exprStr(st)})
+						}
+					}
+				case *ast.IncDecStmt:
+					if r := root(st.X); r != "" && globals[r] && !local[r] {
+						out = append(out, site{x.rel, funcName(fd), "global-write", exprStr(st)})
+					}
+				case *ast.DeclStmt:
+					if gd, ok := st.Decl.(*ast.GenDecl); ok {
+						for _, sp := range gd.Specs {
+							if vs, ok := sp.(*ast.ValueSpec); ok {
+								for _, nm := range vs.Names {
+									local[nm.Name] = true
+								}
+							}
+						}
+					}
+				case *ast.CallExpr:
+					if se, ok := st.Fun.(*ast.SelectorExpr); ok && mut(se.Sel.Name) {
+						if r := root(se.X); r != "" && globals[r] && !local[r] {
+							out = append(out, site{x.rel, funcName(fd), "global-mutating-call", exprStr(st)})
+						}
+					}
+				}
+				return true
+			})
+		}
+	}
+	return out
+}
+
 // ---- inventories ----------------------------------------------------------------------------
 
 type site struct {
@@ -657,5 +780,6 @@ func init() {
 		inv := filepath.Join(filepath.Dir(filepath.Dir(filepath.Dir(dir))), ".work")
 		writeJSON(filepath.Join(inv, "panic_sites.json"), panicSites())
 		writeJSON(filepath.Join(inv, "write_effects.json"), writeEffects())
+		writeJSON(filepath.Join(inv, "shared_state.json"), sharedState())
 	}
 }
